@@ -427,6 +427,7 @@ pub(super) static mut VLENS: [usize; NV] = [0x58; NV];
 pub(super) static mut IOV_OK: bool = true; // C17: every request described only not-yet-transferred ranges of the caller, in order
 pub(super) static mut NEXT_OK: bool = true; // C16: ... and exactly the next positions
 pub(super) static mut IOV_CALLS: usize = 0x59;
+pub(super) static mut COUNT_OK: bool = true; // C17: every element count matched the array that was passed
 
 /// Kernel side of a vectored call. It reads exactly `cnt` elements of the array it is handed (an
 /// over-long count is an out-of-bounds read CBMC reports) and maps every non-empty element to its
@@ -440,6 +441,12 @@ pub(super) static mut IOV_CALLS: usize = 0x59;
 /// ranges point - so the bytes themselves are not copied by the model.
 unsafe fn kernel_vectored(iov: *const libc::iovec, cnt: usize, is_read: bool) -> libc::ssize_t {
     IOV_CALLS += 1;
+    // C17, second sentence: the element count the kernel is told must not run past the array it is handed. The array is a
+    // heap allocation of exactly the rebuilt length, so "all `cnt` elements are readable" is decidable by the solver.
+    if !kani::mem::can_dereference(core::ptr::slice_from_raw_parts(iov, cnt)) {
+        COUNT_OK = false;
+        return fail(libc::EFAULT);
+    }
     let mut cursor = MOVED;
     let mut offered = 0;
     let mut i = 0;
@@ -553,6 +560,7 @@ pub(super) fn run_vec(entry: VEntry) -> VOutcome {
         IOV_OK = true;
         NEXT_OK = true;
         IOV_CALLS = 0;
+        COUNT_OK = true;
     }
     let r = match entry {
         VEntry::Readv => {
@@ -595,7 +603,7 @@ pub(super) fn c16_vec_oracle(o: &VOutcome, is_read: bool) {
             kani::assert(o.r == 0, "vectored: a request whose iovecs are all empty returns 0");
         }
         kani::assert(MOVED <= o.total, "vectored: never more bytes than requested");
-        kani::assert(IOV_OK && NEXT_OK, "vectored: bytes are placed / taken in order at the caller's not-yet-transferred positions");
+        kani::assert(COUNT_OK && IOV_OK && NEXT_OK, "vectored: bytes are placed / taken in order at the caller's not-yet-transferred positions");
         kani::cover!(IOV_CALLS >= 2 && MOVED >= 2 && o.r >= 0, "vectored transfer spanning more than one kernel call");
         kani::cover!(MOVED > 0 && LAST_ERRNO == libc::ECONNRESET, "error after bytes were already moved");
         kani::cover!(WAITS >= 1 && MOVED > 0, "would-block then data");
@@ -605,6 +613,7 @@ pub(super) fn c16_vec_oracle(o: &VOutcome, is_read: bool) {
 /// C17 oracle: what the kernel was handed.
 pub(super) fn c17_vec_oracle(_o: &VOutcome) {
     unsafe {
+        kani::assert(COUNT_OK, "the element count of every vectored request matches the array it passes");
         kani::assert(IOV_OK, "every vectored request describes only the caller's unfilled ranges, in order");
         kani::cover!(IOV_CALLS >= 2 && MOVED >= 1, "second request after a partial first transfer");
         kani::cover!(IOV_CALLS >= 3, "third request");
